@@ -28,8 +28,8 @@ RULE = ("Hypothesis-drawn cases (hops 1..3, kind in data-out / data-in / ping / 
         "mask) / splice body from a 2nd circuit / swap circuit id to the 2nd circuit's / forged cell by an outsider with "
         "own keys) plus hidden-service (e2e) circuits of 1-2 hops per side with data in either direction and optional "
         "flips; thorough adds every byte position of one data cell on every link of a 3-hop circuit. Non-trivial = "
-        "payload >= 8 bytes or a fault that hits the encrypted body; distinct = (hops, kind, direction, length class, "
-        "fault class, link, byte class).")
+        "payload >= 8 bytes or a fault that hits the encrypted body; distinct = the complete case (seed, hops, kind, size, "
+        "shape, destination, fault); the class histogram groups them by (hops, kind, length class, fault class).")
 ASSUMPTIONS = [
     "ChaCha20-Poly1305 / X25519 / HKDF in ipv8_rust_tunnels are trusted (reference key copies are derived with the "
     "same library from the traced shared secret)",
@@ -529,12 +529,12 @@ def run_case(ctx: Ctx | None, case: dict) -> None:
         runner = E2ECase(case)
         info = vloop.run(runner.main)
         if ctx is not None:
-            ctx.case(info.get("desc") or case, info["nontrivial"], cls=info["cls"], sample=case)
+            ctx.case(case, info["nontrivial"], cls=info["cls"], sample=case)
         return
     runner = Case(ctx, case)
     info = vloop.run(runner.main)
     if ctx is not None:
-        ctx.case(info.get("desc") or case, info["nontrivial"], cls=info["cls"], sample=case)
+        ctx.case(case, info["nontrivial"], cls=info["cls"], sample=case)
 
 
 def _strategy():
